@@ -75,6 +75,27 @@ var v1call, v1check = sem.V1Tables()
 type state struct {
 	loaded map[string]map[string]*plrt.Script
 	errs   map[string]map[string]error
+	// the tag and field maps of the last few finished points, as the host holds on to them after giving the point
+	// object back to the pool, with their rendering at that moment: a result belongs to its run for good
+	held []heldResult
+}
+
+type heldResult struct {
+	tags   map[string]string
+	fields map[string]any
+	text   string
+}
+
+func renderMaps(tags map[string]string, fields map[string]any) string {
+	var ks []string
+	for tk, tv := range tags {
+		ks = append(ks, fmt.Sprintf("tag %s=%q", tk, tv))
+	}
+	for fk, fv := range fields {
+		ks = append(ks, fmt.Sprintf("field %s=%s", fk, probe.Render(fv)))
+	}
+	sort.Strings(ks)
+	return strings.Join(ks, "\n")
 }
 
 func newState() *state {
@@ -142,8 +163,11 @@ func perform(st *state, o *Op) string {
 			}
 			fields[fk] = v
 		}
-		tags := map[string]string{}
+		var tags map[string]string // a point without tags is made without a tag map
 		for tk, tv := range o.Tags {
+			if tags == nil {
+				tags = map[string]string{}
+			}
 			tags[tk] = tv
 		}
 		pt := input.GetPoint()
@@ -173,7 +197,19 @@ func perform(st *state, o *Op) string {
 			b.WriteString("\n")
 		}
 		fmt.Fprintf(&b, "polls=%d", sig.Polls)
+		outTags, outFields := pt.Tags, pt.Fields
 		input.PutPoint(pt)
+		for _, h := range st.held {
+			if now := renderMaps(h.tags, h.fields); now != h.text {
+				fmt.Fprintf(&b, "\nAN EARLIER RESULT CHANGED: the tags and fields of an earlier finished point read\n%s\nwhen its run returned and now read\n%s", h.text, now)
+				st.held = nil
+				break
+			}
+		}
+		st.held = append(st.held, heldResult{outTags, outFields, renderMaps(outTags, outFields)})
+		if len(st.held) > 6 {
+			st.held = st.held[1:]
+		}
 		return b.String()
 	}
 	return "HARNESS unknown op"
@@ -275,7 +311,7 @@ var templates = []struct {
 	{"ok", "probe(\"in\", message + \"!\", n1, t1)\nadd_key(z1, 1)\nadd_key(z2, \"two\")\nprobe(\"z\", z1 + 1, z2 + \"2\")"},
 }
 
-var badParses = []string{"b `if`", "x '''abc'''", "a `k`\nb `q`", "f(a) \"\"\"m\"\"\"", "1 `x y`", "a = 1 `b`", "x = '''t''' '''u'''",
+var badParses = []string{"b = 'x\\`y'", "b = \"x\\`y\"", "b = \"x\\\x00y\"", "b = 'x\\\x00y'", "x = \"\\x4\"", "x = '\\u12'", "x = \"\\U00110000\"", "x = \"\\777\"", "x = \"\\ud800\"", "`a\nb` = 1", "b `if`", "x '''abc'''", "a `k`\nb `q`", "f(a) \"\"\"m\"\"\"", "1 `x y`", "a = 1 `b`", "x = '''t''' '''u'''",
 	"x = = 1", "-0x", "for a in 1e {}", "\"unterminated", "a[", "if a {", "x = 1 +", "f(", "`", "\"\\q\"", "a = 1; b = ;", "{\"a\": }", "for ;; ", ")", "x = \"a\" \"b\""}
 var badLoads = []string{"for i in [1] { nosuch() }", "for ;; { add_key() }", "for x in [1] { for y in [2] { cast(a, \"zzz\") } }", "for i in [1] { break }\nbreak", "if true { for ;; { } continue }", "for k in {\"a\": 1} { grok(_, \"%{NOSUCH:x}\") }\ncontinue",
 	"ok = grok(_, \"%{tok:val}\")", "grok(_, \"%{inner:x}\")", "if true { grok(_, \"%{inner:x}\") }", "for i in [1] { if true { ok = grok(_, \"%{tok:val}\") } }", "if false { } else { grok(_, \"%{mine}\") }", "nosuch()", "add_key()", "break", "cast(a, \"zzz\")", "grok(_, \"%{NOSUCH:x}\")", "if true { continue }", "x = [1, nosuch2()]", "use(1)"}
@@ -317,13 +353,21 @@ func genPool(t *rapid.T, n int) []*Op {
 	for _, lay := range []string{"RFC3339", "ANSIC", "nosuch layout", "2006-01-02", ""} {
 		pool = append(pool, &Op{Kind: "run", Scripts: map[string]string{"main.p": fmt.Sprintf("datetime(n1, \"ms\", %q)\nprobe(\"d\", n1)", lay)}, Root: "main.p", Tags: map[string]string{}, Fields: renderFields(map[string]any{"n1": int64(1622098454760)}), Class: "ok"})
 	}
+	for _, doc := range []string{"{}", "{\"labels\": {}, \"n\": 1}", "{\"labels\": {\"deep\": {}}}", "[{}, {}]"} {
+		// documents with empty objects, written into by the script
+		pool = append(pool, &Op{Kind: "run", Scripts: map[string]string{"main.p": "d = load_json(_)\nprobe(\"first\", d)\nfor k in d {\n  if k == \"labels\" { d[k][\"x\"] = 1 }\n}\nif len(d) == 0 { d[\"extra\"] = true }\nprobe(\"after\", d)"}, Root: "main.p", Tags: map[string]string{}, Fields: renderFields(map[string]any{"message": doc}), Class: "ok"})
+	}
+	for _, msg := range []string{"k1", "k2", "another key"} {
+		// an empty map literal that the script fills: every evaluation of {} is a new, empty map
+		pool = append(pool, &Op{Kind: "run", Scripts: map[string]string{"main.p": "m = {}\nm[message] = 1\nprobe(\"m\", m, len({}), message in {})\nl = []\nprobe(\"l\", l, len([]))\nset_tag(seen, \"yes\")"}, Root: "main.p", Tags: map[string]string{}, Fields: renderFields(map[string]any{"message": msg}), Class: "ok"})
+	}
 	for _, doc := range []string{"{\"a\": 1, \"items\": [1, 2]}", "[1, 2]", "{bad"} {
 		pool = append(pool, &Op{Kind: "run", Scripts: map[string]string{"main.p": "d = load_json(_)\nprobe(\"first\", d)\nif true { d[\"extra\"] = true }\nd2 = load_json(_)\nprobe(\"again\", d2)"}, Root: "main.p", Tags: map[string]string{}, Fields: renderFields(map[string]any{"message": doc}), Class: "ok"})
 	}
 	for _, txt := range badParses {
 		pool = append(pool, &Op{Kind: "parse", Text: txt, Class: "parse-error"})
 	}
-	for _, txt := range []string{"x = [1, 2][0]\ny = {\"a\": (1 + 2)}", "f(a, b)\nif a { b = \"s\" }", "for i = 0; i < 3; i = i + 1 {\n  g(i)\n}\n"} {
+	for _, txt := range []string{"`a b` = 1\nx = `a b` + `c`", "x = 'it\\'s'\ny = \"\\\"q\\\"\"\nz = \"\"\"m\"\"\"", "x = [1, 2][0]\ny = {\"a\": (1 + 2)}", "f(a, b)\nif a { b = \"s\" }", "for i = 0; i < 3; i = i + 1 {\n  g(i)\n}\n"} {
 		pool = append(pool, &Op{Kind: "parse", Text: txt, Class: "ok"})
 	}
 	for _, src := range badLoads {
